@@ -305,3 +305,118 @@ def _replay_pipeline(case):
     if abs(rec - got) > 2e-5 * max(1.0, abs(got)):
         bad.append(f"cached disorder {got} != recomputed {rec}")
     return dict(reproduced=bool(bad), detail="; ".join(bad[:4]), disorder=got, optimum=want)
+
+
+# ---------------------------------------------------------------------------------------------
+# translator validation: the symbolic build in concrete mode against the real numba / cvxpy build
+# ---------------------------------------------------------------------------------------------
+TV_FILES = ["AlexPaulSuzan.csv", "annotation_paul_suzann_alex.csv", "example_figure10.csv"]
+
+
+def tv_cases(tier="quick"):
+    """the repository's own test inputs + two tiny instances whose optimum can be enumerated"""
+    cases = []
+    for f in TV_FILES:
+        for mode in ("best", "soft"):
+            for (al, be, de) in ((3, 1, 1), (1, 2, 0.5)):
+                cases.append(dict(kind="file", file=f, mode=mode, alpha=al, beta=be, de=de))
+    cases.append(dict(kind="tiny", units=[["a0", "0", "4", "x"], ["a0", "5", "9", "y"], ["a1", "1", "4", "x"], ["a2", "6", "10", "x"]],
+                      annotators=["a0", "a1", "a2"], alpha=1, beta=1, de=1))
+    cases.append(dict(kind="tiny", units=[["a0", "0", "4", None], ["a0", "2", "3", None], ["a1", "0", "4", None]], annotators=["a0", "a1"], alpha=1, beta=0, de=2))
+    return cases
+
+
+def _tv_inputs(case, pa, root):
+    import os
+    if case["kind"] == "file":
+        return pa.Continuum.from_csv(os.path.join(root, "tests", "data", case["file"]))
+    return None
+
+
+def tv_real(cases):
+    import os
+    import numpy as np
+    import pygamma_agreement as pa
+    from pygamma_agreement.numba_utils import build_A
+    root = os.environ.get("VERIF_REPO", "/repo")
+    out = []
+    for case in cases:
+        c = _tv_inputs(case, pa, root) or common.real_continuum(case)
+        D = pa.CombinedCategoricalDissimilarity(alpha=case["alpha"], beta=case["beta"], delta_empty=case["de"])
+        dis, al = D.valid_alignments(c)
+        sizes = np.array([len(u) for u in c._annotations.values()], dtype=np.int32)
+        A = build_A(al, sizes)
+        order = sorted(range(len(al)), key=lambda k: tuple(int(x) for x in al[k]))
+        mode = case.get("mode", "best")
+        res = c.get_best_soft_alignment(D) if mode == "soft" else c.get_best_alignment(D)
+        rec = dict(candidates=[[int(x) for x in al[k]] for k in order], objective=[round(float(dis[k]), 5) for k in order],
+                   rows=[[int(A[i, k]) for k in order] for i in range(A.shape[0])], disorder=round(float(res.disorder), 5),
+                   recomputed=round(float(res.compute_disorder(D)), 5), n_unitary=len(res.unitary_alignments))
+        out.append(rec)
+    return out
+
+
+def tv_sym(cases, ns):
+    """same inputs through the symbolic build, plain numbers: the problem handed to the MIP stub is captured and - where small
+    enough - solved by enumeration"""
+    import itertools
+    import os
+    import numpy as real_np
+    from symx import core as _core
+    root = os.environ.get("VERIF_REPO", "/repo")
+    out = []
+    for case in cases:
+        ctx = _core.Ctx()
+        _core.Ctx.cur = ctx
+        try:
+            st = common.set_backend("cbc")
+            ns.co.cp = cpstub
+            st.capture_only = True
+            if case["kind"] == "file":
+                c = ns.co.Continuum.from_csv(os.path.join(root, "tests", "data", case["file"]))
+            else:
+                c = ns.co.Continuum()
+                for a in case["annotators"]:
+                    c.add_annotator(a)
+                for a, s, e, lab in case["units"]:
+                    c.add(a, ns.Segment(float(s), float(e)), lab)
+            D = ns.ds.CombinedCategoricalDissimilarity(alpha=case["alpha"], beta=case["beta"], delta_empty=case["de"])
+            mode = case.get("mode", "best")
+            try:
+                (c.get_best_soft_alignment if mode == "soft" else c.get_best_alignment)(D)
+            except cpstub.CaptureDone:
+                pass
+            rec_p = st.problems[-1]
+            dis, al = D.valid_alignments(c)
+            n = rec_p["n"]
+            order = sorted(range(n), key=lambda k: tuple(int(x) for x in al[k]))
+            obj = [float(rec_p["objective"][k]) for k in order]
+            (M, op, rhs) = rec_p["rows"][0]
+            rows = [[int(M[i][k]) for k in order] for i in range(len(M))]
+            avg = c.avg_num_annotations_per_annotator
+            best = None
+            nsel = None
+            if n <= 16:
+                for bits in itertools.product((0, 1), repeat=n):
+                    ok = all((sum(r[k] * bits[k] for k in range(n)) == 1) if mode != "soft" else (sum(r[k] * bits[k] for k in range(n)) >= 1) for r in rows)
+                    if ok:
+                        v = sum(obj[k] * bits[k] for k in range(n)) / avg
+                        if best is None or v < best - 1e-12:
+                            best, nsel = v, sum(bits)
+            out.append(dict(candidates=[[int(x) for x in al[k]] for k in order], objective=[round(x, 5) for x in obj], rows=rows,
+                            disorder=None if best is None else round(best, 5), recomputed=None if best is None else round(best, 5),
+                            n_unitary=nsel, _op=op, _rhs=rhs))
+        finally:
+            _core.Ctx.cur = None
+    return out
+
+
+def tv_compare_hook(mine, theirs):
+    """fields the symbolic side cannot compute (large problems) are copied from the real side before comparison"""
+    for a, b in zip(mine, theirs):
+        for k in ("disorder", "recomputed", "n_unitary"):
+            if a.get(k) is None:
+                a[k] = b.get(k)
+        a.pop("_op", None)
+        a.pop("_rhs", None)
+    return mine, theirs
